@@ -1163,6 +1163,11 @@ impl TDigestView<'_> {
         }
         let last_weight = self.centroids[num_centroids - 1].weight();
         if last_weight > 1. && (centroids_weight - weight <= last_weight / 2.) {
+            if last_weight <= 2. {
+                // no sample lies strictly between the last mean and max: the tail is the single
+                // point weight = W - 1, where the interpolation below would be 0 / 0
+                return Some(self.centroids[num_centroids - 1].mean);
+            }
             return Some(
                 self.max
                     - (((centroids_weight - weight - 1.) / ((last_weight / 2.) - 1.))
